@@ -1162,6 +1162,13 @@ class OdeSystem(object):
 
         return print_str
 
+    def __index_of_time(self, t_val):
+        """Index of the first recorded time at or beyond t_val along the direction of the recorded grid."""
+        t_recorded = self.t
+        if self.counter > 0 and t_recorded[-1] < t_recorded[0]:
+            return deutil.search_bisection(-t_recorded, -t_val)
+        return deutil.search_bisection(t_recorded, t_val)
+
     def __getitem__(self, index):
         if isinstance(index, int):
             if index > self.counter:
@@ -1171,11 +1178,11 @@ class OdeSystem(object):
                 return StateTuple(t=self.t[index], y=self.y[index], event=None)
         elif isinstance(index, slice):
             if index.start is not None:
-                start_idx = deutil.search_bisection(self.t[:self.counter + 1], index.start)
+                start_idx = self.__index_of_time(index.start)
             else:
                 start_idx = 0
             if index.stop is not None:
-                end_idx = deutil.search_bisection(self.t[:self.counter + 1], index.stop) + 1
+                end_idx = self.__index_of_time(index.stop) + 1
             else:
                 end_idx = self.counter + 1
             if index.step is not None:
@@ -1187,15 +1194,12 @@ class OdeSystem(object):
             if self.__dense_output and self.sol is not None:
                 return StateTuple(t=index, y=self.sol(index), event=None)
             else:
-                nearest_idx = deutil.search_bisection(self.__t, index)
-                if nearest_idx < self.counter:
-                    if D.ar_numpy.abs(D.ar_numpy.to_numpy(self.t[nearest_idx] - index)) < D.ar_numpy.abs(
-                            D.ar_numpy.to_numpy(self.t[nearest_idx + 1] - index)):
-                        return StateTuple(t=self.t[nearest_idx], y=self.y[nearest_idx], event=None)
-                    else:
-                        return StateTuple(t=self.t[nearest_idx + 1], y=self.y[nearest_idx + 1], event=None)
-                else:
-                    return StateTuple(t=self.t[nearest_idx], y=self.y[nearest_idx], event=None)
+                nearest_idx = self.__index_of_time(index)
+                if nearest_idx > 0:
+                    if D.ar_numpy.abs(D.ar_numpy.to_numpy(self.t[nearest_idx - 1] - index)) < D.ar_numpy.abs(
+                            D.ar_numpy.to_numpy(self.t[nearest_idx] - index)):
+                        nearest_idx = nearest_idx - 1
+                return StateTuple(t=self.t[nearest_idx], y=self.y[nearest_idx], event=None)
 
     def __len__(self):
         return self.counter + 1
